@@ -1023,4 +1023,363 @@ theorem run_sOk (L : Nat) (ms : List Bool) (lo hi : Option Rat)
   | .assignK _ :: _, _, hv, _ => by simp [ValidRun] at hv
   | .assignS _ :: _, _, hv, _ => by simp [ValidRun] at hv
 
+/-! ## arbitrary runs: raw updates and constraint calls in ANY interleaving
+
+`ValidRun` above only allows pure constraint runs. `RunValid` allows every run; the bookkeeping
+`Track` (Model/Kfl.lean) says what the run leaves behind. -/
+
+/-- the op is a constraint call (not a raw update) -/
+def Op.isCons : Op → Bool
+  | .consK _ => true
+  | .consS => true
+  | _ => false
+
+/-- every kernel-constraint call of the run sees valid data (shapes, one factor per term, `rootOk`);
+raw updates are unrestricted -/
+def RunValid (L : Nat) (ms : List Bool) (lo hi : Option Rat) : State → List Op → Prop
+  | _, [] => True
+  | st, .consK rs :: ops =>
+    RootsOk L ms lo hi st.scale rs st.K ∧ RunValid L ms lo hi (step ms lo hi st (.consK rs)) ops
+  | st, .consS :: ops => RunValid L ms lo hi (step ms lo hi st .consS) ops
+  | st, .assignK K :: ops => RunValid L ms lo hi (step ms lo hi st (.assignK K)) ops
+  | st, .assignS s :: ops => RunValid L ms lo hi (step ms lo hi st (.assignS s)) ops
+
+/-- EXACTLY which runs `ValidRun` (hence the theorems stated with it) covers: the runs without any
+raw update whose kernel-constraint calls see valid data -/
+theorem validRun_iff (L : Nat) (ms : List Bool) (lo hi : Option Rat) : ∀ (ops : List Op) (st : State),
+    ValidRun L ms lo hi st ops ↔ (∀ op ∈ ops, Op.isCons op = true) ∧ RunValid L ms lo hi st ops
+  | [], _ => by simp [ValidRun, RunValid]
+  | .consK rs :: ops, st => by
+    have ih := validRun_iff L ms lo hi ops (step ms lo hi st (.consK rs))
+    simp only [ValidRun, RunValid, List.mem_cons, forall_eq_or_imp, Op.isCons, true_and, ih]
+    tauto
+  | .consS :: ops, st => by
+    have ih := validRun_iff L ms lo hi ops (step ms lo hi st .consS)
+    simp only [ValidRun, RunValid, List.mem_cons, forall_eq_or_imp, Op.isCons, true_and, ih]
+  | .assignK K :: ops, st => by
+    simp [ValidRun, Op.isCons]
+  | .assignS s :: ops, st => by
+    simp [ValidRun, Op.isCons]
+
+theorem runOps_append (ms : List Bool) (lo hi : Option Rat) (st : State) (a b : List Op) :
+    runOps ms lo hi st (a ++ b) = runOps ms lo hi (runOps ms lo hi st a) b := by
+  simp [runOps, List.foldl_append]
+
+theorem runValid_append (L : Nat) (ms : List Bool) (lo hi : Option Rat) : ∀ (a b : List Op) (st : State),
+    RunValid L ms lo hi st (a ++ b) ↔
+      RunValid L ms lo hi st a ∧ RunValid L ms lo hi (runOps ms lo hi st a) b
+  | [], b, st => by simp [RunValid, runOps]
+  | .consK rs :: a, b, st => by
+    have ih := runValid_append L ms lo hi a b (step ms lo hi st (.consK rs))
+    simp only [List.cons_append, RunValid, ih, runOps, List.foldl_cons, and_assoc]
+  | .consS :: a, b, st => by
+    have ih := runValid_append L ms lo hi a b (step ms lo hi st .consS)
+    simp only [List.cons_append, RunValid, ih, runOps, List.foldl_cons]
+  | .assignK K :: a, b, st => by
+    have ih := runValid_append L ms lo hi a b (step ms lo hi st (.assignK K))
+    simp only [List.cons_append, RunValid, ih, runOps, List.foldl_cons]
+  | .assignS s :: a, b, st => by
+    have ih := runValid_append L ms lo hi a b (step ms lo hi st (.assignS s))
+    simp only [List.cons_append, RunValid, ih, runOps, List.foldl_cons]
+
+theorem runTracked_fst (ms : List Bool) (lo hi : Option Rat) : ∀ (ops : List Op) (st : State) (tr : Track),
+    (runTracked ms lo hi st tr ops).1 = runOps ms lo hi st ops
+  | [], _, _ => rfl
+  | op :: ops, st, tr => by
+    simp only [runTracked, runOps, List.foldl_cons]
+    exact runTracked_fst ms lo hi ops _ _
+
+theorem runTracked_append (ms : List Bool) (lo hi : Option Rat) : ∀ (a b : List Op) (st : State) (tr : Track),
+    runTracked ms lo hi st tr (a ++ b) =
+      runTracked ms lo hi (runTracked ms lo hi st tr a).1 (runTracked ms lo hi st tr a).2 b
+  | [], _, _, _ => rfl
+  | op :: a, b, st, tr => by
+    simp only [List.cons_append, runTracked]
+    exact runTracked_append ms lo hi a b _ _
+
+/-- all entries of one term's kernel are zero -/
+def ZeroK (kt : List (List Rat)) : Prop := ∀ k ∈ kt, ∀ v ∈ k, v = 0
+
+/-- a zero kernel is correctly oriented for every direction -/
+theorem dimsOk_of_zeroK (L : Nat) (σ σ' : Rat) : ∀ (ms : List Bool) (kt : List (List Rat)),
+    DimsOk L σ ms kt → ZeroK kt → DimsOk L σ' ms kt
+  | [], [], _, _ => by simp [DimsOk]
+  | [], _ :: _, h, _ => by simp [DimsOk] at h
+  | _ :: _, [], h, _ => by simp [DimsOk] at h
+  | m :: ms, k :: ks, h, hz => by
+    simp only [DimsOk] at h ⊢
+    refine ⟨⟨h.1.1, fun hm => ⟨(h.1.2 hm).1, ?_⟩⟩,
+      dimsOk_of_zeroK L σ σ' ms ks h.2 (fun k' hk' => hz k' (List.mem_cons_of_mem _ hk'))⟩
+    have : k.map (σ' * ·) = k.map (fun _ => (0 : Rat)) := by
+      apply List.map_congr_left
+      intro v hv; rw [hz k (List.mem_cons_self ..) v hv]; simp
+    rw [this]; exact nondec_map_const 0 k
+
+/-- direction `tf.sign(0) = 0`: the column is multiplied by zero (twice) -/
+theorem projectDim_zero (m : Bool) (k : List Rat) : ∀ v ∈ projectDim 0 m k, v = 0 := by
+  intro v hv
+  unfold projectDim at hv
+  simp only [List.mem_map] at hv
+  obtain ⟨a, _, rfl⟩ := hv
+  simp
+
+theorem projectMono_zeroK (s : Rat) (hs : s = 0) : ∀ (ms : List Bool) (kt : List (List Rat)),
+    ZeroK (projectMono ms s kt)
+  | [], _ => by intro k hk; simp [projectMono] at hk
+  | _ :: _, [] => by intro k hk; simp [projectMono] at hk
+  | m :: ms, k :: ks => by
+    intro k' hk'
+    simp only [projectMono, List.zipWith_cons_cons, List.mem_cons] at hk'
+    rcases hk' with rfl | hk'
+    · subst hs; rw [sgn_zero]; exact projectDim_zero m k
+    · exact projectMono_zeroK s hs ms ks k' hk'
+
+theorem zeroK_scaleDown (r : Rat) (kt : List (List Rat)) (h : ZeroK kt) : ZeroK (scaleDown r kt) := by
+  intro k hk v hv
+  simp only [scaleDown, List.mem_map] at hk
+  obtain ⟨k0, hk0, rfl⟩ := hk
+  simp only [List.mem_map] at hv
+  obtain ⟨a, ha, rfl⟩ := hv
+  rw [h k0 hk0 a ha]; simp
+
+theorem zeroK_clipNonneg (kt : List (List Rat)) (h : ZeroK kt) : ZeroK (clipNonneg kt) := by
+  intro k hk v hv
+  simp only [clipNonneg, List.mem_map] at hk
+  obtain ⟨k0, hk0, rfl⟩ := hk
+  simp only [List.mem_map] at hv
+  obtain ⟨a, ha, rfl⟩ := hv
+  rw [h k0 hk0 a ha]; simp
+
+/-- a term whose scale is exactly zero when the kernel constraint runs (some dimension monotone)
+gets its whole kernel ZEROED: it stays harmless whatever the scale becomes later -/
+theorem finalizeWeightTerm_zeroK (ms : List Bool) (lo hi : Option Rat) (s r : Rat) (kt : List (List Rat))
+    (hany : ms.any id = true) (hs : s = 0) : ZeroK (finalizeWeightTerm ms lo hi s r kt) := by
+  have h1 : ZeroK (monoStage ms s kt) := by
+    unfold monoStage; rw [if_pos hany]; exact projectMono_zeroK s hs ms _
+  unfold finalizeWeightTerm
+  simp only
+  cases lo <;> cases hi <;> simp only [Option.isSome, Bool.or_false, Bool.or_true, Bool.false_eq_true, if_false, if_true, projectBounds]
+  · exact h1
+  · exact zeroK_clipNonneg _ h1
+  · exact zeroK_clipNonneg _ h1
+  · exact zeroK_scaleDown r _ h1
+
+/-- what a kernel-constraint call that READ the scale `r` leaves behind on the monotone side: every
+term oriented by `sign(r_t)`, and zeroed where `r_t = 0` -/
+def KernelRef (L : Nat) (ms : List Bool) : List Rat → List (List (List Rat)) → Prop
+  | r :: rs, kt :: ks => (DimsOk L (sgn r) ms kt ∧ (r = 0 → ZeroK kt)) ∧ KernelRef L ms rs ks
+  | _, _ => True
+
+theorem finalizeWeight_ref (L : Nat) (ms : List Bool) (lo hi : Option Rat) (hany : ms.any id = true) :
+    ∀ (scale rs : List Rat) (K : List (List (List Rat))), RootsOk L ms lo hi scale rs K →
+    KernelRef L ms scale (finalizeWeight ms lo hi scale rs K)
+  | [], [], [], _ => by simp [KernelRef]
+  | s :: ss, r :: rs, kt :: ks, h => by
+    simp only [finalizeWeight, KernelRef]
+    exact ⟨⟨finalizeWeightTerm_dimsOk L ms lo hi s r kt h.1 hany,
+      fun hs => finalizeWeightTerm_zeroK ms lo hi s r kt hany hs⟩,
+      finalizeWeight_ref L ms lo hi hany ss rs ks h.2⟩
+  | [], [], _ :: _, h => by simp [RootsOk] at h
+  | [], _ :: _, _, h => by simp [RootsOk] at h
+  | _ :: _, [], _, h => by simp [RootsOk] at h
+  | _ :: _, _ :: _, [], h => by simp [RootsOk] at h
+
+/-- the orientation established for the scale `r` is still right for the scale `f` when every
+term passes `signOk1` -/
+theorem kernelRef_kernelOk (L : Nat) (ms : List Bool) : ∀ (r f : List Rat) (K : List (List (List Rat))),
+    KernelRef L ms r K → signsOk r f = true → KernelOk L ms f K
+  | [], [], _, _, _ => by simp [KernelOk]
+  | [], _ :: _, _, _, h => by simp [signsOk] at h
+  | _ :: _, [], _, _, h => by simp [signsOk] at h
+  | _ :: _, _ :: _, [], _, _ => by simp [KernelOk]
+  | r :: rs, f :: fs, kt :: ks, h, hs => by
+    simp only [signsOk, Bool.and_eq_true] at hs
+    simp only [KernelRef] at h
+    simp only [KernelOk]
+    refine ⟨?_, kernelRef_kernelOk L ms rs fs ks h.2 hs.2⟩
+    have h1 := hs.1
+    simp only [signOk1, Bool.or_eq_true, decide_eq_true_eq] at h1
+    rcases h1 with (h0 | h0) | h0
+    · exact dimsOk_of_zeroK L _ _ ms kt h.1.1 (h.1.2 h0)
+    · rw [h0, sgn_zero]; exact dimsOk_zero L _ ms kt h.1.1
+    · rw [h0]; exact h.1.1
+
+theorem signOk1_refl (r : Rat) : signOk1 r r = true := by simp [signOk1]
+theorem signsOk_refl : ∀ r : List Rat, signsOk r r = true
+  | [] => rfl
+  | r :: rs => by simp [signsOk, signOk1_refl, signsOk_refl rs]
+
+theorem sgn_eq_zero (x : Rat) (h : sgn x = 0) : x = 0 := by
+  rcases sgn_cases x with ⟨_, e⟩ | ⟨_, e⟩ | ⟨e, _⟩
+  · rw [e] at h; norm_num at h
+  · rw [e] at h; norm_num at h
+  · exact e
+
+/-- the scale constraint never turns an admissible sign pattern into an inadmissible one -/
+theorem signsOk_scaleConstraint (lo hi : Option Rat) (hlh : ∀ l h, lo = some l → hi = some h → l ≤ h) :
+    ∀ r f : List Rat, signsOk r f = true → signsOk r (scaleConstraint lo hi f) = true := by
+  intro r f h
+  unfold scaleConstraint
+  split
+  · induction r generalizing f with
+    | nil => cases f with
+      | nil => simp [finalizeScale, signsOk]
+      | cons _ _ => simp [signsOk] at h
+    | cons r rs ih => cases f with
+      | nil => simp [signsOk] at h
+      | cons f fs =>
+        simp only [signsOk, Bool.and_eq_true] at h
+        simp only [finalizeScale, List.map_cons, signsOk, Bool.and_eq_true]
+        refine ⟨?_, ih fs h.2⟩
+        have h1 := h.1
+        simp only [signOk1, Bool.or_eq_true, decide_eq_true_eq] at h1 ⊢
+        rcases finalizeScale1_sign lo hi hlh f with h0 | h0
+        · exact Or.inl (Or.inr h0)
+        · rcases h1 with (h1 | h1) | h1
+          · exact Or.inl (Or.inl h1)
+          · rw [h1, sgn_zero] at h0
+            exact Or.inl (Or.inr (h1 ▸ sgn_eq_zero _ h0))
+          · right; rw [h0, h1]
+  · exact h
+
+/-- kernel-side facts relative to the scale `r` the last kernel constraint read -/
+def KRef (L : Nat) (ms : List Bool) (lo hi : Option Rat) (r : List Rat) (K : List (List (List Rat))) : Prop :=
+  (ms.any id = true → KernelRef L ms r K) ∧ BoundOkK lo hi K
+
+theorem kernelConstraint_ref (L : Nat) (ms : List Bool) (lo hi : Option Rat) (st : State) (rs : List Rat)
+    (h : RootsOk L ms lo hi st.scale rs st.K) :
+    KRef L ms lo hi st.scale (kernelConstraint ms lo hi st.scale rs st.K) := by
+  refine ⟨fun hany => ?_, (kernelConstraint_ok L ms lo hi st rs h).2⟩
+  unfold kernelConstraint
+  simp only [hany, Bool.true_or, if_true]
+  exact finalizeWeight_ref L ms lo hi hany st.scale rs st.K h
+
+/-- invariant of the bookkeeping along any run -/
+def TrackInv (L : Nat) (ms : List Bool) (lo hi : Option Rat) (st : State) (tr : Track) : Prop :=
+  (∀ r, tr.ref = some r → KRef L ms lo hi r st.K) ∧ (tr.sFresh = true → SOk lo hi st.scale)
+
+theorem trackInv_init (L : Nat) (ms : List Bool) (lo hi : Option Rat) (st : State) :
+    TrackInv L ms lo hi st Track.init :=
+  ⟨fun _ h => by simp [Track.init] at h, fun h => by simp [Track.init] at h⟩
+
+theorem runTracked_inv (L : Nat) (ms : List Bool) (lo hi : Option Rat)
+    (hlh : ∀ l h, lo = some l → hi = some h → l ≤ h) : ∀ (ops : List Op) (st : State) (tr : Track),
+    RunValid L ms lo hi st ops → TrackInv L ms lo hi st tr →
+    TrackInv L ms lo hi (runTracked ms lo hi st tr ops).1 (runTracked ms lo hi st tr ops).2
+  | [], _, _, _, h => h
+  | .consK rs :: ops, st, tr, hv, h => by
+    refine runTracked_inv L ms lo hi hlh ops _ _ hv.2 ⟨fun r hr => ?_, h.2⟩
+    simp only [trackStep, Option.some.injEq] at hr
+    subst hr
+    exact kernelConstraint_ref L ms lo hi st rs hv.1
+  | .consS :: ops, st, tr, hv, h =>
+    runTracked_inv L ms lo hi hlh ops _ _ hv ⟨h.1, fun _ => scaleConstraint_sOk lo hi hlh st.scale⟩
+  | .assignK K :: ops, st, tr, hv, h =>
+    runTracked_inv L ms lo hi hlh ops _ _ hv ⟨fun _ hr => by simp [trackStep] at hr, h.2⟩
+  | .assignS s :: ops, st, tr, hv, h =>
+    runTracked_inv L ms lo hi hlh ops _ _ hv ⟨h.1, fun hf => by simp [trackStep] at hf⟩
+
+theorem trackInv_kOk (L : Nat) (ms : List Bool) (lo hi : Option Rat) (st : State) (tr : Track)
+    (h : TrackInv L ms lo hi st tr) (hc : monoCovered tr st.scale = true) : KOk L ms lo hi st := by
+  unfold monoCovered at hc
+  cases hr : tr.ref with
+  | none => rw [hr] at hc; cases hc
+  | some r =>
+    rw [hr] at hc
+    obtain ⟨h1, h2⟩ := h.1 r hr
+    exact ⟨fun hany => kernelRef_kernelOk L ms r st.scale st.K (h1 hany) hc, h2⟩
+
+theorem trackInv_bound (L : Nat) (ms : List Bool) (lo hi : Option Rat) (st : State) (tr : Track)
+    (h : TrackInv L ms lo hi st tr) (hc : boundCovered tr = true) :
+    BoundOkK lo hi st.K ∧ SOk lo hi st.scale := by
+  simp only [boundCovered, Bool.and_eq_true] at hc
+  cases hr : tr.ref with
+  | none => rw [hr] at hc; simp at hc
+  | some r => exact ⟨(h.1 r hr).2, h.2 hc.2⟩
+
+/-! ### readable (syntactic) sufficient conditions for the bookkeeping flags -/
+
+def Op.touchesKRef : Op → Bool
+  | .assignK _ => true
+  | .consK _ => true
+  | _ => false
+
+def Op.isAssignS : Op → Bool
+  | .assignS _ => true
+  | _ => false
+
+theorem runTracked_ref_keep (ms : List Bool) (lo hi : Option Rat) : ∀ (ops : List Op) (st : State) (tr : Track),
+    (∀ op ∈ ops, Op.touchesKRef op = false) → (runTracked ms lo hi st tr ops).2.ref = tr.ref
+  | [], _, _, _ => rfl
+  | .consS :: ops, st, tr, h => by
+    simp only [runTracked]
+    rw [runTracked_ref_keep ms lo hi ops _ _ (fun op hop => h op (List.mem_cons_of_mem _ hop))]; rfl
+  | .assignS s :: ops, st, tr, h => by
+    simp only [runTracked]
+    rw [runTracked_ref_keep ms lo hi ops _ _ (fun op hop => h op (List.mem_cons_of_mem _ hop))]; rfl
+  | .assignK K :: ops, _, _, h => by
+    have := h (.assignK K) (List.mem_cons_self ..); simp [Op.touchesKRef] at this
+  | .consK rs :: ops, _, _, h => by
+    have := h (.consK rs) (List.mem_cons_self ..); simp [Op.touchesKRef] at this
+
+theorem runTracked_sFresh_keep (ms : List Bool) (lo hi : Option Rat) : ∀ (ops : List Op) (st : State) (tr : Track),
+    (∀ op ∈ ops, Op.isAssignS op = false) → tr.sFresh = true → (runTracked ms lo hi st tr ops).2.sFresh = true
+  | [], _, _, _, h => h
+  | .consS :: ops, st, tr, h, _ => by
+    simp only [runTracked]
+    exact runTracked_sFresh_keep ms lo hi ops _ _ (fun op hop => h op (List.mem_cons_of_mem _ hop)) rfl
+  | .consK rs :: ops, st, tr, h, hf => by
+    simp only [runTracked]
+    exact runTracked_sFresh_keep ms lo hi ops _ _ (fun op hop => h op (List.mem_cons_of_mem _ hop)) hf
+  | .assignK K :: ops, st, tr, h, hf => by
+    simp only [runTracked]
+    exact runTracked_sFresh_keep ms lo hi ops _ _ (fun op hop => h op (List.mem_cons_of_mem _ hop)) hf
+  | .assignS s :: ops, _, _, h, _ => by
+    have := h (.assignS s) (List.mem_cons_self ..); simp [Op.isAssignS] at this
+
+/-- the LAST kernel-constraint call comes after the last raw kernel update: `ref` is the scale it read -/
+theorem trackOf_ref_of_last_consK (ms : List Bool) (lo hi : Option Rat) (st : State) (pre post : List Op)
+    (rs : List Rat) (hpost : ∀ op ∈ post, Op.touchesKRef op = false) :
+    (trackOf ms lo hi st (pre ++ .consK rs :: post)).ref = some (runOps ms lo hi st pre).scale := by
+  unfold trackOf
+  rw [runTracked_append]
+  simp only [runTracked]
+  rw [runTracked_ref_keep ms lo hi post _ _ hpost, runTracked_fst]
+  rfl
+
+/-- a scale-constraint call comes after the last raw scale update -/
+theorem trackOf_sFresh_of_last_consS (ms : List Bool) (lo hi : Option Rat) (st : State) (pre post : List Op)
+    (hpost : ∀ op ∈ post, Op.isAssignS op = false) :
+    (trackOf ms lo hi st (pre ++ .consS :: post)).sFresh = true := by
+  unfold trackOf
+  rw [runTracked_append]
+  simp only [runTracked]
+  exact runTracked_sFresh_keep ms lo hi post _ _ hpost rfl
+
+/-! ### the bookkeeping reads only the scale: the driver op `kfl.track` runs it without kernels -/
+
+def Op.forget : Op → Op
+  | .assignK _ => .assignK []
+  | .consK _ => .consK []
+  | .assignS s => .assignS s
+  | .consS => .consS
+
+theorem runTracked_forget (ms ms' : List Bool) (lo hi : Option Rat) : ∀ (ops : List Op) (st st' : State) (tr : Track),
+    st'.scale = st.scale →
+    (runTracked ms' lo hi st' tr (ops.map Op.forget)).2 = (runTracked ms lo hi st tr ops).2 ∧
+    (runTracked ms' lo hi st' tr (ops.map Op.forget)).1.scale = (runTracked ms lo hi st tr ops).1.scale
+  | [], _, _, _, h => ⟨rfl, h⟩
+  | .assignK K :: ops, st, st', tr, h => by
+    simp only [List.map_cons, Op.forget, runTracked, trackStep]
+    exact runTracked_forget ms ms' lo hi ops _ _ _ h
+  | .assignS s :: ops, st, st', tr, h => by
+    simp only [List.map_cons, Op.forget, runTracked, trackStep]
+    exact runTracked_forget ms ms' lo hi ops _ _ _ rfl
+  | .consK rs :: ops, st, st', tr, h => by
+    simp only [List.map_cons, Op.forget, runTracked, trackStep, h]
+    exact runTracked_forget ms ms' lo hi ops _ _ _ h
+  | .consS :: ops, st, st', tr, h => by
+    simp only [List.map_cons, Op.forget, runTracked, trackStep]
+    exact runTracked_forget ms ms' lo hi ops _ _ _ (by simp [step, h])
+
 end Tfl.Kfl
